@@ -2,6 +2,7 @@
 From TxV Require Import Core.Base Model.MultBase Gen.SrcMult Model.Mult Proofs.MultProofs Proofs.MultFlowProofs Proofs.MultRealProofs Proofs.MultSepProofs.
 From TxV Require Model.Build Model.PegSyntax Model.Peg Model.MultPeg Proofs.MultPegProofs Proofs.MultPegWitness.
 From TxV Require Model.MultBuild Proofs.MultBuildProofs Proofs.MultEndProofs Proofs.PegProofs Proofs.PegMemo.
+From TxV Require Model.Spec Proofs.BuildPlaced Proofs.MultTableProofs Proofs.MultTableWitness.
 
 (* An attribute is a list exactly when one object can collect more than one value for it:
    `infer` is the multiplicity inference of the current source (visit_assignment's operator table followed by
@@ -285,3 +286,47 @@ Example C02_nonvacuous_end_to_end :
        /\ Build.get_val [98]%N vals = Some (Build.VDefault [73;78;84]%N).
 Proof. exact MultPegWitness.wit_end. Qed.
 Print Assumptions C02_nonvacuous_end_to_end.
+
+(* The same with hypotheses on the TABLE and the ORACLE only - no hypothesis on the parse tree: for tables in the class
+   of C01's refinement theorem (Spec.wfg), an oracle that never matches the empty string (Spec.orc_pos) and
+   BuildPlaced.table_asg_ok (decidable), Build.asg_placed of the parsed tree is derived (C01/C06 builder's
+   asg_placed_of_run_tree). *)
+Theorem C02_run_object_values_table :
+  forall g mm input grp auto use_grp attr_id orc,
+  MultBuild.asg_table_okb g mm = true ->
+  forall pf K memo b nid cfg fuel r cls attrs cls' p e vals,
+  Spec.wfg g pf = true -> Spec.orc_pos orc -> BuildPlaced.table_asg_ok g mm K = true ->
+  (memo = true -> PegProofs.ctx_constant g = true /\ PegMemo.not_aborted (Peg.run g cfg orc false fuel input)) ->
+  MultPeg.den g mm attr_id true b nid = true -> grammar_ok b = true -> MultEndProofs.top_okb g nid = true ->
+  Build.info mm nid = Build.IRule Build.RCommon cls attrs -> MultBuild.mult_agreesb attr_id b attrs = true ->
+  Peg.run g cfg orc memo fuel input = Peg.Parsed r ->
+  Build.build g mm input grp auto use_grp r = Build.BOk (Build.VObj cls' p e vals) ->
+  exists kids tp rest, r = Peg.RTree (Peg.NT tp (Peg.NT nid kids :: rest)) /\
+  forall ma, Build.find_attr (Build.a_name ma) attrs = Some ma ->
+    Build.get_val (Build.a_name ma) vals
+      = Some (MultBuild.expected_val auto ma (MultBuild.tvals g mm input grp auto use_grp ma kids))
+    /\ (MultBuild.is_many (Build.a_mult ma) = true <-> 2 <= maxcount (attr_id (Build.a_name ma)) b)
+    /\ (MultBuild.is_many (Build.a_mult ma) = false ->
+        length (MultBuild.tvals g mm input grp auto use_grp ma kids) <= 1).
+Proof. exact MultTableProofs.run_object_values_table. Qed.
+Print Assumptions C02_run_object_values_table.
+
+(* non-vacuity: every hypothesis holds on the dumped `Model: (a=INT | b=INT) a+=INT[','];`, input `1 2 , 3`, memoization on *)
+Example C02_nonvacuous_table :
+  Spec.wfg MultTableWitness.wit2_g 24 = true /\ Spec.orc_pos (Peg.orc_of MultTableWitness.wit2_tbl)
+  /\ BuildPlaced.table_asg_ok MultTableWitness.wit2_g MultPegWitness.wit_mm 24 = true
+  /\ PegProofs.ctx_constant MultTableWitness.wit2_g = true
+  /\ MultBuild.asg_table_okb MultTableWitness.wit2_g MultPegWitness.wit_mm = true
+  /\ MultPeg.den MultTableWitness.wit2_g MultPegWitness.wit_mm MultPegWitness.wit_attr true MultPegWitness.wit_body MultPegWitness.wit_nid = true
+  /\ grammar_ok MultPegWitness.wit_body = true
+  /\ MultEndProofs.top_okb MultTableWitness.wit2_g MultPegWitness.wit_nid = true
+  /\ MultBuild.mult_agreesb MultPegWitness.wit_attr MultPegWitness.wit_body MultPegWitness.wit_attrs = true
+  /\ PegMemo.not_aborted (Peg.run MultTableWitness.wit2_g MultPegWitness.wit_cfg (Peg.orc_of MultTableWitness.wit2_tbl) false 50 MultPegWitness.wit_input)
+  /\ exists r p e vals,
+       Peg.run MultTableWitness.wit2_g MultPegWitness.wit_cfg (Peg.orc_of MultTableWitness.wit2_tbl) true 50 MultPegWitness.wit_input = Peg.Parsed r
+       /\ Build.build MultTableWitness.wit2_g MultPegWitness.wit_mm MultPegWitness.wit_input MultPegWitness.wit_grp true false r
+          = Build.BOk (Build.VObj [77;111;100;101;108]%N p e vals)
+       /\ Build.get_val [97]%N vals
+          = Some (Build.VList [Build.VTerm [73;78;84]%N [49]%N; Build.VTerm [73;78;84]%N [50]%N; Build.VTerm [73;78;84]%N [51]%N]).
+Proof. exact MultTableWitness.wit2_end. Qed.
+Print Assumptions C02_nonvacuous_table.
